@@ -104,6 +104,13 @@ class VUnique:
         self.uid = next(_ids)
 
 
+class VChoice:
+    """value_if if cond else value_else, for values of different kinds (argparse sentinel defaults)."""
+
+    def __init__(self, cond, a, b):
+        self.cond, self.a, self.b = cond, a, b
+
+
 class VCtxMgr:
     def __init__(self, enter, exit_):
         self.enter, self.exit = enter, exit_
